@@ -4,6 +4,9 @@
 (* ExportImportProp evaluated on the terminal states of the design, for the  *)
 (* scenario ids selected by the configuration (CONSTANT Ids <- QuickIds ...).*)
 (* The design's own invariants (Ordered, PassBound) are in TarImport.        *)
+(* Default of every mc / gen configuration: the switches are FALSE (current  *)
+(* code); the as-found settings live in C09_mc_asfound_quick.cfg (PropExact) *)
+(* and in the expected-counterexample configs C09_mc_s6 / _links / _duppath. *)
 (***************************************************************************)
 EXTENDS TarImport
 
@@ -23,11 +26,18 @@ DkRec == [ok |-> phase = "done", found |-> tgt.tag = "dkman" /\ tgt.dk.cfg \in t
 Terminal == phase \in {"done", "failed"}
 Verdict == IF sc.kind = "oci" THEN P!O2(SrcRec, ImpRec) ELSE P!O3(sc.dkwant, DkRec)
 
-\* the repaired design (DrainBug, LinkCode, DupPathBug all FALSE): the property holds for every scenario
+\* the design as it is now (DrainBug, LinkCode, DupPathBug all FALSE; /repo commits ad30bfd, a529ea7, 72bf6e2,
+\* 4eaa9ce): the property holds for every scenario
 PropHolds == Terminal => Verdict = ""
-\* the design as implemented: the property holds except for the recorded classes, and those really fail
-PropHoldsButKnown == Terminal /\ sc.bad = "" => Verdict = ""
-KnownReproduced == Terminal /\ sc.bad # "" => Verdict # ""
+\* the design as it was found: each switch set to TRUE brings back one class of failures (sc.bad names the
+\* class a scenario belongs to).  For ANY setting of the switches: the property fails exactly on the scenarios
+\* of a class whose switch is on.  With all switches off this is PropHolds; with switches on it says that the
+\* as-found design fails there (what findings C09-1..4 and the seeds seeded/fixrev-C09-* show on real code)
+\* and nowhere else.
+ExpectedBad == \/ sc.bad = "drain" /\ DrainBug
+               \/ sc.bad = "link" /\ LinkCode
+               \/ sc.bad = "duppath" /\ DupPathBug
+PropExact == Terminal => ((Verdict = "") <=> ~ExpectedBad)
 \* while the import runs the target never holds a manifest without its children
 Ordered == Closed /\ TagComplete /\ Sorted
 =============================================================================
